@@ -29,6 +29,8 @@ MUTS = {
    'func (s *SchedulerImpl) areAllWfInWGAtBarrier(wg *wavefront.WorkGroup) bool {\n\tfor _, wf := range wg.Wfs[:1] {'),
  'waitcnt-vmcnt-ignored': ('amd/timing/cu/scheduler.go',
    '\tif wf.OutstandingVectorMemAccess > inst.VMCNT {\n\t\tdone = false\n\t}\n', ''),
+ 'waitcnt-lgkmcnt-never-satisfied-deadlock': ('amd/timing/cu/scheduler.go',
+   '\tif wf.OutstandingScalarMemAccess > inst.LKGMCNT {', '\tif wf.OutstandingScalarMemAccess >= inst.LKGMCNT {'),
  'partial-wavefront-exec-mask-all-ones': ('amd/timing/cu/wfdispatcher.go',
    'wf.SetEXEC(wf.InitExecMask)', 'wf.SetEXEC(^uint64(0))'),
  'workgroup-id-y-written-as-x': ('amd/timing/cu/wfdispatcher.go',
